@@ -460,14 +460,11 @@ def corpus_variants(pid: str, ctx: Ctx) -> list:
 # no model of. One line of reason each; DESIGN.md §13 / §18.
 UNDECIDABLE_SEEDS = (
     "C14d",   # vendored euler_from_matrix edited: summary must be re-derived
-    "C20g",   # vectorised marker geometry (axis-role typing of reshapes)
-    "C20h",   # same, with rows/columns of the rotation swapped
     "C07j",   # EuRoC stamps parsed with integer arithmetic in a new helper
     "C11h",   # motion filter loop re-written over zip(poses, distances)
     "C13j",   # per-array merge strategy table
     "C15i",   # inversion moved into load_transform(invert=...) (analytic)
     "C14k",   # vendored euler_from_matrix edited (assumption A4, as C14d)
-    "C20k",   # vectorised marker geometry with rows for columns (as C20h)
 )
 
 # behaviour-preserving changes on which a check refuses to decide: the same
